@@ -92,6 +92,8 @@ class ServerSock:
         self.conn = conn
         self.net = conn.net
         self._fd = conn.fd
+        # what accept() returns is a BLOCKING socket, whatever the listener's mode (Linux / CPython)
+        self.nonblocking = False
 
     def _op(self, op):
         c = self.conn
@@ -108,6 +110,15 @@ class ServerSock:
             ff = getattr(self.net, "faults_from", {}).get((c.cid, op))
             if ff is not None and n >= ff[0]:
                 f = ff[1]
+        if isinstance(f, str) and f.startswith("DEAD:"):
+            # from this call on the connection is dead: every further call of this kind fails too
+            e = int(f[5:])
+            self.net.__dict__.setdefault("faults_from", {})[(c.cid, op)] = (n, e)
+            # the kernel has given the connection up: the error is pending on the socket, which
+            # poll / select report as ready (POLLERR) from now on
+            c.sock_error = e
+            self.net.changed()
+            f = e
         if f is not None:
             w.note_fault(c, op, n, f)
             if isinstance(f, int):
@@ -126,6 +137,17 @@ class ServerSock:
 
     def setblocking(self, flag):
         self._op("setblocking")
+        self.nonblocking = not flag
+
+    def _would_block(self, what):
+        """a call that cannot proceed: EWOULDBLOCK on a non-blocking socket; on a blocking one the
+        calling thread really waits (until the client moves or goes away)"""
+        c = self.conn
+        if self.nonblocking:
+            self.net.world.event("s-%s-block" % what, c.cid)
+            raise BlockingIOError(errno.EWOULDBLOCK, "Resource temporarily unavailable")
+        self.net.world.count("blocking-socket-call-blocked:" + what)
+        self.net.world.sched.block(("sock-blocking", c.cid, what), None)
 
     def getsockopt(self, level, opt, *a):
         self._op("getsockopt")
@@ -158,7 +180,25 @@ class ServerSock:
         if c.client_fin:
             self.net.world.event("s-recv-eof", c.cid)
             return b""
-        raise BlockingIOError(errno.EWOULDBLOCK, "Resource temporarily unavailable")
+        if self.nonblocking:
+            raise BlockingIOError(errno.EWOULDBLOCK, "Resource temporarily unavailable")
+        while not (c.c2s or c.client_fin or c.client_rst or c.server_closed):
+            self._would_block("recv")
+        return self.recv(n) if False else self._recv_now(n)
+
+    def _recv_now(self, n):
+        c = self.conn
+        if c.server_closed:
+            raise OSError(errno.EBADF, "Bad file descriptor")
+        if c.client_rst:
+            raise OSError(errno.ECONNRESET, "Connection reset by peer")
+        if c.c2s:
+            data = bytes(c.c2s[:n])
+            del c.c2s[:n]
+            self.net.world.event("s-recv", c.cid, len(data))
+            return data
+        self.net.world.event("s-recv-eof", c.cid)
+        return b""
 
     def send(self, data):
         f = self._op("send")
@@ -176,8 +216,18 @@ class ServerSock:
         if cap >= 0:
             k = min(k, cap)
         if k <= 0:
-            self.net.world.event("s-send-block", c.cid)
-            raise BlockingIOError(errno.EWOULDBLOCK, "Resource temporarily unavailable")
+            if self.nonblocking:
+                self.net.world.event("s-send-block", c.cid)
+                raise BlockingIOError(errno.EWOULDBLOCK, "Resource temporarily unavailable")
+            while c.sndbuf - len(c.s2c) <= 0 and not (c.client_rst or c.client_closed or c.server_closed):
+                self._would_block("send")
+            if c.server_closed:
+                raise OSError(errno.EBADF, "Bad file descriptor")
+            if c.client_rst:
+                raise OSError(errno.ECONNRESET, "Connection reset by peer")
+            if c.client_closed:
+                raise OSError(errno.EPIPE, "Broken pipe")
+            k = min(len(data), c.sndbuf - len(c.s2c))
         c.s2c += data[:k]
         c.sent_total += k
         self.net.world.event("s-send", c.cid, k)
@@ -289,6 +339,7 @@ class Net:
         """some readiness may have changed: wake threads blocked in select/poll"""
         self.world.sched.unblock_where(lambda on: isinstance(on, tuple) and on and on[0] == "select", "io")
         self.world.sched.unblock_where(lambda on: isinstance(on, tuple) and on and on[0] == "client-wait", "io")
+        self.world.sched.unblock_where(lambda on: isinstance(on, tuple) and on and on[0] == "sock-blocking", "io")
 
     # ---- listener / connections
     def listener(self, name=("127.0.0.1", 8080)):
@@ -320,7 +371,7 @@ class Net:
         if kind == "listener":
             return bool(obj.backlog)
         if kind == "conn":
-            return bool(obj.c2s) or obj.client_fin or obj.client_rst
+            return bool(obj.c2s) or obj.client_fin or obj.client_rst or bool(getattr(obj, "sock_error", 0))
         if kind == "pipe-r":
             return bool(obj.buf) or obj.closed_w
         return False
@@ -331,7 +382,7 @@ class Net:
             return False
         kind, obj = what
         if kind == "conn":
-            return obj.client_rst or obj.client_closed or len(obj.s2c) < obj.sndbuf
+            return obj.client_rst or obj.client_closed or bool(getattr(obj, "sock_error", 0)) or len(obj.s2c) < obj.sndbuf
         if kind == "pipe-w":
             return True
         return False
@@ -349,6 +400,8 @@ class Net:
         if kind == "conn":
             if obj.client_rst:
                 rev |= _sel.POLLERR | _sel.POLLHUP
+            elif getattr(obj, "sock_error", 0):
+                rev |= _sel.POLLERR
         return rev
 
     # ---- pipes (the trigger)
